@@ -5,6 +5,8 @@ package main
 // symbolic data forks once per operator, and those forks multiply with the
 // forks of the code under test.  The harness files of these packages define
 //
+// (optionally with the name prefix vC04 instead of v)
+//
 //	func vIte(c bool, a, b int) int { if c { return a }; return b }
 //	func vAnd(a, b bool) bool       { return a && b }
 //	func vOr(a, b bool) bool        { return a || b }
@@ -16,23 +18,39 @@ package main
 import "golang.org/x/tools/go/ssa"
 
 func init() {
+	// byteconv.UnsafeString is `*(*string)(unsafe.Pointer(&b))`: a string view
+	// of the slice header.  Modelled like unsafe.String (ops.go): a snapshot
+	// of the bytes at the time of the call (its callers do not mutate the
+	// bytes while the string is in use, as its doc comment requires).
+	if _, ok := intrinsics["github.com/brimdata/super/pkg/byteconv.UnsafeString"]; !ok {
+		intrinsics["github.com/brimdata/super/pkg/byteconv.UnsafeString"] = func(in *Interp, fr *frame, fn *ssa.Function, a []Value) Value {
+			b, _ := a[0].(Slice)
+			if len(b) == 0 {
+				return in.str("")
+			}
+			return in.bytesToStr(b)
+		}
+	}
 	for _, pkg := range []string{
 		"github.com/brimdata/super/pkg/stringsearch",
 		"github.com/brimdata/super/runtime/sam/expr",
 		"github.com/brimdata/super/compiler/kernel",
 		"github.com/brimdata/super/zson",
 	} {
-		intrinsics[pkg+".vIte"] = func(in *Interp, fr *frame, fn *ssa.Function, a []Value) Value {
-			return in.tt.Ite(a[0].(*Term), a[1].(*Term), a[2].(*Term))
-		}
-		intrinsics[pkg+".vAnd"] = func(in *Interp, fr *frame, fn *ssa.Function, a []Value) Value {
-			return in.tt.And(a[0].(*Term), a[1].(*Term))
-		}
-		intrinsics[pkg+".vOr"] = func(in *Interp, fr *frame, fn *ssa.Function, a []Value) Value {
-			return in.tt.Or(a[0].(*Term), a[1].(*Term))
-		}
-		intrinsics[pkg+".vImp"] = func(in *Interp, fr *frame, fn *ssa.Function, a []Value) Value {
-			return in.tt.Or(in.tt.Not(a[0].(*Term)), a[1].(*Term))
+		for _, pre := range []string{".v", ".vC04"} {
+			pkg := pkg + pre
+			intrinsics[pkg+"Ite"] = func(in *Interp, fr *frame, fn *ssa.Function, a []Value) Value {
+				return in.tt.Ite(a[0].(*Term), a[1].(*Term), a[2].(*Term))
+			}
+			intrinsics[pkg+"And"] = func(in *Interp, fr *frame, fn *ssa.Function, a []Value) Value {
+				return in.tt.And(a[0].(*Term), a[1].(*Term))
+			}
+			intrinsics[pkg+"Or"] = func(in *Interp, fr *frame, fn *ssa.Function, a []Value) Value {
+				return in.tt.Or(a[0].(*Term), a[1].(*Term))
+			}
+			intrinsics[pkg+"Imp"] = func(in *Interp, fr *frame, fn *ssa.Function, a []Value) Value {
+				return in.tt.Or(in.tt.Not(a[0].(*Term)), a[1].(*Term))
+			}
 		}
 	}
 }
